@@ -38,16 +38,46 @@ Fixpoint split_pairs (tbl:list (str * str)) (reads seen:list str) : list (str * 
 Definition render (p:str * str) : str := fst p ++ [9] ++ snd p.                         (* "%s\t%s\n" *)
 Definition split_file (rc gc:nat) (delim:str) (lines reads:list str) : list str :=
   map render (split_pairs (load_table rc gc delim lines) reads []).
-(* create_read_grouper: ReadTableGrouper(<split file of the chromosome>, 0, 1, '\t'); get_group_id *)
-Definition table_group_split (rc gc:nat) (delim:str) (lines reads:list str) (name:str) : str :=
-  match lookup_last (load_table 0 1 [9] (split_file rc gc delim lines reads)) name with Some g => g | None => NA end.
+(* load_table(file, rc, gc, delim, skip_comments): lines starting with '#' are comments only when skip_comments is set *)
+Definition parse_line_s (skip:bool) (rc gc:nat) (delim line:str) : option (str * str) :=
+  let l := strip line in
+  match l with
+  | [] => None
+  | c :: _ => if skip && (c =? 35) then None
+              else let cols := split delim l in
+                   if Nat.leb (length cols) (Nat.max rc gc) then None else Some (nth rc cols [], nth gc cols [])
+  end.
+Definition load_table_s (skip:bool) (rc gc:nat) (delim:str) (lines:list str) : list (str * str) :=
+  flat_map (fun l => match parse_line_s skip rc gc delim l with Some p => [p] | None => [] end) lines.
+Lemma parse_line_s_true rc gc delim line : parse_line_s true rc gc delim line = parse_line rc gc delim line.
+Proof. unfold parse_line_s, parse_line. destruct (strip line); reflexivity. Qed.
+Lemma load_table_s_true rc gc delim lines : load_table_s true rc gc delim lines = load_table rc gc delim lines.
+Proof. unfold load_table_s, load_table. induction lines as [|l t IH]; [reflexivity|]. cbn [flat_map]. rewrite parse_line_s_true, IH. reflexivity. Qed.
+(* create_read_grouper: ReadTableGrouper(<split file of the chromosome>, 0, 1, '\t', skip_comments=False) (repaired, commit 614fc16; the user's table is
+   still read with comments); get_group_id.  Before the repair the split file was read with skip_comments as well *)
+Definition table_group_split_gen (skip:bool) (rc gc:nat) (delim:str) (lines reads:list str) (name:str) : str :=
+  match lookup_last (load_table_s skip 0 1 [9] (split_file rc gc delim lines reads)) name with Some g => g | None => NA end.
+Definition table_group_split := table_group_split_gen false.
+Definition table_group_split_unrepaired := table_group_split_gen true.
 (* the variant that reads the split file with the layout of the command line *)
 Definition table_group_split_user_layout (rc gc:nat) (delim:str) (lines reads:list str) (name:str) : str :=
   match lookup_last (load_table rc gc delim (split_file rc gc delim lines reads)) name with Some g => g | None => NA end.
+(* one read, its line of the split file alone (the shape of GroupedGroupers.table_group, which describes the code before the repair) *)
+Definition table_group_repaired (rc gc:nat) (delim:str) (lines:list str) (name:str) : str :=
+  match lookup_last (load_table rc gc delim lines) name with
+  | None => NA
+  | Some g => match parse_line_s false 0 1 [9] (name ++ [9] ++ g) with
+              | Some (n', g') => if str_eqb n' name then g' else NA
+              | None => NA
+              end
+  end.
 
-(* names and groups that survive the re-writing: a read name as SAM allows it ([!-?A-~]+) that does not start with '#';
+(* names and groups that survive the re-writing: a read name as SAM allows it ([!-?A-~]+; before the repair: that does not start with '#');
    a non-empty group without TAB whose last character is not white space *)
-Definition clean_name (n:str) : bool := match n with c :: _ => negb (c =? 35) | [] => false end && forallb (fun c => negb (is_ws c)) n.
+Definition name_ok (skip:bool) (n:str) : bool :=
+  match n with c :: _ => negb (skip && (c =? 35)) | [] => false end && forallb (fun c => negb (is_ws c)) n.
+Definition clean_name := name_ok false.
+Definition clean_name_unrepaired := name_ok true.
 Definition safe_group (g:str) : bool :=
   negb (occurs [9] g) && match rev g with c :: _ => negb (is_ws c) | [] => false end.
 
@@ -111,8 +141,8 @@ Lemma lstrip_head c t : is_ws c = false -> lstrip (c :: t) = c :: t.
 Proof. intros H. cbn [lstrip]. rewrite H. reflexivity. Qed.
 Lemma strip_edges s c t z r : s = c :: t -> rev s = z :: r -> is_ws c = false -> is_ws z = false -> strip s = s.
 Proof. intros E R Wc Wz. subst s. unfold strip. rewrite (lstrip_head c t Wc), R, (lstrip_head z r Wz), <- R. apply rev_involutive. Qed.
-Lemma parse_rendered n g : clean_name n = true -> safe_group g = true -> parse_line 0 1 [9] (render (n, g)) = Some (n, g).
-Proof. unfold clean_name, safe_group, render. cbn [fst snd]. intros Cn Cg. destruct n as [|c0 tn]; [discriminate|].
+Lemma parse_rendered skip n g : name_ok skip n = true -> safe_group g = true -> parse_line_s skip 0 1 [9] (render (n, g)) = Some (n, g).
+Proof. unfold name_ok, safe_group, render. cbn [fst snd]. intros Cn Cg. destruct n as [|c0 tn]; [discriminate|].
   apply andb_true_iff in Cn. destruct Cn as [C35 Cws]. apply negb_true_iff in C35.
   apply andb_true_iff in Cg. destruct Cg as [Ctab Clast]. apply negb_true_iff in Ctab.
   assert (W0: is_ws c0 = false) by (cbn [forallb] in Cws; apply andb_true_iff in Cws; destruct Cws as [X _]; apply negb_true_iff in X; exact X).
@@ -120,35 +150,50 @@ Proof. unfold clean_name, safe_group, render. cbn [fst snd]. intros Cn Cg. destr
   assert (S: strip ((c0 :: tn) ++ [9] ++ g) = (c0 :: tn) ++ [9] ++ g).
   { apply (strip_edges _ c0 (tn ++ [9] ++ g) z ((rg ++ [9]) ++ rev (c0 :: tn))); [reflexivity| |exact W0|exact Clast].
     rewrite rev_app_distr. change (rev ([9] ++ g)) with (rev g ++ [9]). rewrite RG. reflexivity. }
-  unfold parse_line. rewrite S. cbn [app]. rewrite C35. change (c0 :: tn ++ 9 :: g) with ((c0 :: tn) ++ 9 :: g).
+  unfold parse_line_s. rewrite S. cbn [app]. rewrite C35. change (c0 :: tn ++ 9 :: g) with ((c0 :: tn) ++ 9 :: g).
   rewrite (split_tab_pair (c0 :: tn) g Cws Ctab). reflexivity. Qed.
-Lemma load_rendered (pairs:list (str * str)) : (forall p, In p pairs -> clean_name (fst p) = true /\ safe_group (snd p) = true) ->
-  load_table 0 1 [9] (map render pairs) = pairs.
-Proof. induction pairs as [|p t IH]; intros H; [reflexivity|]. unfold load_table in *. cbn [map flat_map]. destruct p as [n g].
-  destruct (H (n, g) (or_introl eq_refl)) as [A B]. cbn [fst snd] in A, B. rewrite (parse_rendered n g A B). cbn [app]. f_equal.
+Lemma load_rendered skip (pairs:list (str * str)) : (forall p, In p pairs -> name_ok skip (fst p) = true /\ safe_group (snd p) = true) ->
+  load_table_s skip 0 1 [9] (map render pairs) = pairs.
+Proof. induction pairs as [|p t IH]; intros H; [reflexivity|]. unfold load_table_s in *. cbn [map flat_map]. destruct p as [n g].
+  destruct (H (n, g) (or_introl eq_refl)) as [A B]. cbn [fst snd] in A, B. rewrite (parse_rendered skip n g A B). cbn [app]. f_equal.
   apply IH. intros q Hq. apply H. right. exact Hq. Qed.
 
 (* a read of the chromosome that is listed in the table gets exactly the group of its (last) row, whatever column layout and delimiter
    the table has on the command line; hypotheses: the reads of the chromosome have clean names and the groups of those among them that
    are listed survive the re-writing *)
 Section Table.
+Variable skip : bool.
 Variables (rc gc:nat) (delim:str) (lines reads:list str).
-Hypothesis names_clean : forall n, In n reads -> clean_name n = true.
+Hypothesis names_clean : forall n, In n reads -> name_ok skip n = true.
 Hypothesis groups_safe : forall n g, In n reads -> lookup_last (load_table rc gc delim lines) n = Some g -> safe_group g = true.
-Lemma split_file_loaded : load_table 0 1 [9] (split_file rc gc delim lines reads) = split_pairs (load_table rc gc delim lines) reads [].
+Lemma split_file_loaded : load_table_s skip 0 1 [9] (split_file rc gc delim lines reads) = split_pairs (load_table rc gc delim lines) reads [].
 Proof. unfold split_file. apply load_rendered. intros [n g] H. apply split_pairs_spec in H. destruct H as [A [_ C]]. cbn [fst snd].
   split; [apply names_clean, A|apply (groups_safe n g A C)]. Qed.
-Theorem table_group_is_the_row_entry name g : In name reads -> lookup_last (load_table rc gc delim lines) name = Some g ->
-  table_group_split rc gc delim lines reads name = g.
-Proof. intros H L. unfold table_group_split. rewrite split_file_loaded.
+Lemma table_group_gen_row name g : In name reads -> lookup_last (load_table rc gc delim lines) name = Some g ->
+  table_group_split_gen skip rc gc delim lines reads name = g.
+Proof. intros H L. unfold table_group_split_gen. rewrite split_file_loaded.
   rewrite (lookup_last_unique _ name g (split_pairs_NoDup _ reads [])); [reflexivity|]. apply split_pairs_spec. split; [exact H|]. split; [intros []|exact L]. Qed.
-Theorem table_missing_row_is_NA name : lookup_last (load_table rc gc delim lines) name = None -> table_group_split rc gc delim lines reads name = NA.
-Proof. intros L. unfold table_group_split. rewrite split_file_loaded.
+Lemma table_group_gen_missing name : lookup_last (load_table rc gc delim lines) name = None -> table_group_split_gen skip rc gc delim lines reads name = NA.
+Proof. intros L. unfold table_group_split_gen. rewrite split_file_loaded.
   assert (X: lookup_last (split_pairs (load_table rc gc delim lines) reads []) name = None).
   { apply lookup_last_None. intros H. apply in_map_iff in H. destruct H as [[n g] [E H]]. cbn [fst] in E. subst n. apply split_pairs_spec in H.
     destruct H as [_ [_ C]]. congruence. }
   rewrite X. reflexivity. Qed.
 End Table.
+(* repaired code: clean read names (SAM), no condition on their first character *)
+Theorem table_group_is_the_row_entry rc gc delim lines reads : (forall n, In n reads -> clean_name n = true) ->
+  (forall n g, In n reads -> lookup_last (load_table rc gc delim lines) n = Some g -> safe_group g = true) ->
+  forall name g, In name reads -> lookup_last (load_table rc gc delim lines) name = Some g -> table_group_split rc gc delim lines reads name = g.
+Proof. intros A B. apply (table_group_gen_row false rc gc delim lines reads A B). Qed.
+Theorem table_missing_row_is_NA rc gc delim lines reads : (forall n, In n reads -> clean_name n = true) ->
+  (forall n g, In n reads -> lookup_last (load_table rc gc delim lines) n = Some g -> safe_group g = true) ->
+  forall name, lookup_last (load_table rc gc delim lines) name = None -> table_group_split rc gc delim lines reads name = NA.
+Proof. intros A B. apply (table_group_gen_missing false rc gc delim lines reads A B). Qed.
+(* the code before the repair: additionally no read id of the chromosome starts with '#' *)
+Theorem table_group_is_the_row_entry_unrepaired rc gc delim lines reads : (forall n, In n reads -> clean_name_unrepaired n = true) ->
+  (forall n g, In n reads -> lookup_last (load_table rc gc delim lines) n = Some g -> safe_group g = true) ->
+  forall name g, In name reads -> lookup_last (load_table rc gc delim lines) name = Some g -> table_group_split_unrepaired rc gc delim lines reads name = g.
+Proof. intros A B. apply (table_group_gen_row true rc gc delim lines reads A B). Qed.
 
 (* ---------------------------------------------------------------- witnesses *)
 (* the split file read with the layout of the command line (read column 1, group column 0): the listed read falls into NA *)
@@ -157,12 +202,13 @@ Example table_group_user_layout_refuted :
   lookup_last (load_table 1 0 [9] lines) [114; 49] = Some [103; 49] /\ split_file 1 0 [9] lines [[114; 49]] = [[114; 49; 9; 103; 49]] /\
   table_group_split 1 0 [9] lines [[114; 49]] [114; 49] = [103; 49] /\ table_group_split_user_layout 1 0 [9] lines [[114; 49]] [114; 49] = NA.
 Proof. vm_compute. repeat split; reflexivity. Qed.
-(* the hypotheses are needed. A read id that starts with '#' (allowed by SAM) listed in a table whose read column is not the first: its line of the
-   split file starts with '#' and is skipped as a comment; a group that ends in white space is trimmed (an empty group loses its row) *)
+(* Before the repair a read id that starts with '#' (allowed by SAM) listed in a table whose read column is not the first was lost: its line of the
+   split file starts with '#' and was skipped as a comment. The hypothesis on the groups is needed: a group that ends in white space is trimmed (an empty group loses its row) *)
 Example table_group_hash_read_id_refuted :
   let lines := [[103; 49; 9; 35; 114]] in      (* "g1<TAB>#r" *)
-  lookup_last (load_table 1 0 [9] lines) [35; 114] = Some [103; 49] /\ table_group_split 1 0 [9] lines [[35; 114]] [35; 114] = NA.
-Proof. vm_compute. split; reflexivity. Qed.
+  lookup_last (load_table 1 0 [9] lines) [35; 114] = Some [103; 49] /\ table_group_split_unrepaired 1 0 [9] lines [[35; 114]] [35; 114] = NA /\
+  table_group_split 1 0 [9] lines [[35; 114]] [35; 114] = [103; 49].
+Proof. vm_compute. repeat split; reflexivity. Qed.
 Example table_group_padded_group_refuted :
   let lines := [[114; 49; 44; 103; 49; 32; 44; 120]] in (* "r1,g1 ,x" with delimiter ',' *)
   lookup_last (load_table 0 1 [44] lines) [114; 49] = Some [103; 49; 32] /\ table_group_split 0 1 [44] lines [[114; 49]] [114; 49] = [103; 49].
